@@ -62,11 +62,16 @@ def _case(draw, tier):
             ops.append(["infer", c, draw(st.integers(0, 3))])
         elif k == "clear":
             ops.append(["clear"])
+        elif k == "new_raising":
+            ops.append(["new_raising", c])        # a construction whose own initialisation raises: nothing was constructed
         elif k == "query_partial":
             # an evaluation over a no-domain variable that the consumer gives up after its first result
             ops.append(["query_partial", c, draw(st.sampled_from(["let", "block"])), draw(st.sampled_from(["break", "close", "the"]))])
         else:
             ops.append(["query", c, draw(st.sampled_from(["let", "block", "block_entity", "rule_block", "rule_block_entity"]))])
+    if chance(draw, 1, 12):
+        # (KF-65, open: one case in twelve has a construction whose own initialisation raises)
+        ops.insert(draw(st.integers(0, len(ops))), ["new_raising", draw(st.integers(0, len(nodes) - 1))])
     ops.append(["query", draw(st.integers(0, len(nodes) - 1)), "let"])
     return {"nodes": nodes, "ops": ops}
 
@@ -89,6 +94,8 @@ def _make_classes(nodes):
                 ns["w"] = 7
 
             def post(self, _c=cnt, _b=bases):
+                if self.v == 13:
+                    raise ValueError("initialisation refuses v == 13")
                 _c["inits"] += 1
                 for b in _b:      # parents' counters count too
                     pass
@@ -98,6 +105,8 @@ def _make_classes(nodes):
             def init(self, v=0, w=7, _c=cnt):
                 self.v = v
                 self.w = w
+                if v == 13:
+                    raise ValueError("initialisation refuses v == 13")
                 _c["inits"] += 1
             cls = type(f"K{i}", bases, {"__init__": init})
         if nd["decorated"]:
@@ -218,6 +227,13 @@ def check(case) -> Outcome:
                 Variable._cache_.clear()
                 model = []
                 cls_set.add("clear")
+            elif k == "new_raising":
+                try:
+                    classes[op[1]](13)
+                    return fail("concrete_construction", f"step {step} {op}: the initialisation did not raise", classes=sorted(cls_set))
+                except ValueError:
+                    pass
+                cls_set.add("construction_raised_earlier")
             elif k == "query_partial":
                 cls = classes[op[1]]
                 if op[2] == "let":
@@ -269,7 +285,7 @@ def check(case) -> Outcome:
                     return fail(kind, f"step {step} {op}: no-domain variable of K{op[1]} returned "
                                       f"{[type(o).__name__ + ':' + str(getattr(o, 'v', '?')) for o in res]}, expected "
                                       f"{[type(o).__name__ + ':' + str(o.v) for o in want]} (history {case['ops'][:step]})",
-                                classes=sorted(cls_set), nontrivial=nontrivial)
+                                classes=sorted(cls_set), nontrivial=nontrivial, features=sorted(cls_set))
                 kinds = {type(o) for o in want}
                 if len(kinds) >= 2 and any(not nodes[classes.index(t)]["decorated"] for t in kinds) and sym_seen:
                     nontrivial = True
